@@ -716,8 +716,9 @@ class ObjectMethod(DeserializationMethod):
                 for name, default_factory in self.init_defaults:
                     if name in values:
                         init[name] = values[name]
-                    elif not field_errors or name not in field_errors:
-                        assert default_factory is not None
+                    # a field without value nor default is invalid (missing):
+                    # validators depending on it are not executed
+                    elif default_factory is not None:
                         init[name] = default_factory()
             aliases = values.keys()
             # Don't keep validators when all dependencies are default
